@@ -10,6 +10,7 @@ import LinVerif.Lemmas.C20Get
 import LinVerif.Lemmas.C20SeekList
 import LinVerif.Lemmas.C20Merge
 import LinVerif.Lemmas.C20Bits
+import LinVerif.Lemmas.C20Louds
 import LinVerif.Model.Louds
 import LinVerif.Model.TrieBucket
 import LinVerif.Generated.C20
@@ -298,6 +299,43 @@ theorem louds_childNodeID (hasChild : List Bool) (pos : Nat) (h : hasChild[pos]?
     | some _ => exact (List.getElem?_eq_some_iff.1 hl).1
   rw [rankGo_eq_rank _ _ hlt]
   exact rank_of_set hasChild pos h
+
+/-- **LOUDS navigation = tree navigation, position formulas** (`_partial`, see below): on the
+encoding `encode t` of the tree built from any buildable key list, with `bfs t` the nodes in
+level order (node ids) and `flatItems t` the labels in vector order,
+* `firstLabelPos(n)` (select.go's table-driven `Select(louds, n+1)`) is the offset of node n's
+  labels: the number of labels of the nodes before it;
+* at a label with child, `childNodeID(pos)` (rank.go's table-driven `Rank(hasChild, pos)`) is the
+  level-order index of exactly that child node;
+* at a label without child, `valuePos(pos)` indexes exactly that label's value.
+What is NOT proved (tied by the array-level correspondence instead): the label search inside
+`[firstLabelPos, firstLabelPos + nodeSize)`, the prefix/suffix path lookup through the
+hasPrefix/hasSuffix rank vectors, and the induction along the key that composes these into
+`loudsGet (encode t) = getNode t`; the iterator's explicit-stack stepping. -/
+theorem louds_refines_tree_partial {kvs : List KV} {t : Node} (h : Buildable kvs) (ht : build kvs = some t) :
+    (∀ n, n < (bfs t).length → firstLabelPos (encode t) n = offset t n) ∧
+    (∀ pos l c, (flatItems t)[pos]? = some (.child l c) → (bfs t)[childNodeID (encode t) pos]? = some c) ∧
+    (∀ pos l suf v, (flatItems t)[pos]? = some (.leaf l suf v) →
+      (encode t).values[valuePos (encode t) pos]? = some v) := by
+  obtain ⟨t', ht', _, hwf, _⟩ := build_spec h
+  rw [ht] at ht'; cases ht'
+  exact ⟨fun n hn => firstLabelPos_eq_offset hwf n hn,
+    fun pos l c hp => childNodeID_eq_bfs_index pos l c hp,
+    fun pos l suf v hp => valuePos_eq_value_index pos l suf v hp⟩
+
+/-- the encoded label / hasChild / louds / value vectors are the per-node rows concatenated in
+level order (what `trie.Init` / `bitVector.Init` do with the builder's levels) -/
+theorem louds_encoding_layout (t : Node) :
+    (encode t).labels = (flatItems t).map Item.label ∧
+    (encode t).hasChild = (flatItems t).map Item.isChild ∧
+    (encode t).louds = loudsOfSizes ((bfs t).map (fun n => n.entries.length)) ∧
+    (encode t).values = (flatItems t).filterMap Item.val? ∧
+    bfs t = t :: (flatItems t).filterMap Item.child? := by
+  refine ⟨encode_labels t, encode_hasChild t, encode_louds t, encode_values t, ?_⟩
+  rw [← bfs_tail]
+  conv => lhs; rw [bfs_eq t]
+  conv => rhs; rw [bfs_eq t]
+  rfl
 
 end Layer2
 
